@@ -49,7 +49,21 @@ def trace_random_lens(args):
         return {"error": "build: %s: %s" % (type(ex).__name__, ex), "seed": seed, "events": []}
     events = []
     try:
-        for w in optic.wavelengths.get_wavelengths():
+        wls = list(optic.wavelengths.get_wavelengths())
+        if seed % 3 == 2 and len(wls) > 1:
+            # one bundle whose rays carry different wavelengths (RealRays.w is per ray): every ray is
+            # refracted with the indices at its own wavelength
+            n = nrays * len(wls)
+            Hx, Hy, Px, Py = _rays(rnd, n)
+            off = rnd.randrange(len(wls))
+            warr = np.array([wls[(off + j) % len(wls)] for j in range(n)])
+            G.quiet(optic.trace_generic, Hx, Hy, Px, Py, warr)
+            for q, w in enumerate(wls):
+                events += RR.record_events(optic, w, ray_base=len(events),
+                                           pick=[j for j in range(n) if (off + j) % len(wls) == q])
+            meta["polychromatic_bundle"] = True
+            wls = []
+        for w in wls:
             Hx, Hy, Px, Py = _rays(rnd, nrays, stray=(seed % 2 == 1))
             G.quiet(optic.trace_generic, Hx, Hy, Px, Py, w)
             # the stray ray is outside the pupil, hence outside the property's quantifier: it is the
